@@ -73,7 +73,9 @@ class Node(object):
         self.path = os.path.join(root(), name or "node%d" % _counter)
         # with symlink=True the device path is a symbolic link (like /dev/disk/by-id/...) to the node that gets replaced
         self.real = self.path + ".real" if symlink else self.path
-        if symlink:
+        # symlink="repoint": every generation is a file of its OWN name (sda, sdb, ...) that stays in place; the link is re-pointed
+        self.repoint = symlink == "repoint"
+        if symlink and not self.repoint:
             os.symlink(self.real, self.path)
         # with chr=True every generation is a character special file for the SAME device number (1:3), as a re-plugged /dev/sgN is
         self.chr = chr
@@ -97,7 +99,14 @@ class Node(object):
             st = os.fstat(fd)
             os.close(fd)
         os.link(tmp, self.path + ".keep%d" % self.generation)
-        os.rename(tmp, self.real)
+        if self.repoint:
+            self.real = self.path + ".sd%d" % self.generation
+            os.rename(tmp, self.real)
+            lnk = self.path + ".lnk"
+            os.symlink(self.real, lnk)
+            os.replace(lnk, self.path)          # (atomic re-point, as udev does)
+        else:
+            os.rename(tmp, self.real)
         tgt = self.target_factory(self.generation)
         self.targets[self.generation] = tgt
         self.inodes[self.generation] = st.st_ino
@@ -140,7 +149,7 @@ class Node(object):
                 os.unlink(self.path + ".keep%d" % g)
             except OSError:
                 pass
-        for p in {self.path, self.real}:
+        for p in {self.path, self.real} | {self.path + ".sd%d" % g for g in self.inodes}:
             try:
                 os.unlink(p)
             except OSError:
